@@ -114,7 +114,7 @@ FN_CALLS = {('fb', '_feedback_fn'): 'be._feedback', ('fb', '_should_stop_early_f
 DNA_WRITERS = {'set_proposal_id', 'set_generation_id', '_set_initial_population', 'set_feedback_sequence_number', 'set_fitness'}
 DNA_READERS = {'is_initial_population', 'get_fitness', 'get_feedback_sequence_number'}
 # names that may be called / mentioned without touching modelled state
-PLAIN = {'len', 'int', 'str', 'dict', 'isinstance', 'float', 'tuple', 'super', 'enumerate', 'Trial', 'Measurement', 'RaceConditionError', 'ValueError',
+PLAIN = {'len', 'int', 'str', 'dict', 'list', 'set', 'bool', 'range', 'zip', 'min', 'max', 'sorted', 'isinstance', 'float', 'tuple', 'super', 'enumerate', 'Trial', 'Measurement', 'RaceConditionError', 'ValueError',
          'StopIteration', 'time', 'datetime', 'logging', 'pg', 'symbolic', 'threading', 'collections', 'make_operation_compatible', '_InMemoryResult',
          'None', 'True', 'False'}
 GLOBAL_VARS = {'_in_memory_results': ('box', 'VRegistry')}
